@@ -439,6 +439,16 @@ class Splicer:
         # loops
         for i, lp in enumerate(r['loops']):
             spec = (fc.loops.get(i) if fc else None)
+            if u.reveal_strlits:
+                lits = []
+                for l in r.get('strlits', []):
+                    if lp['body'][0] <= l['span'][0] < lp['body'][1]:
+                        t = data[l['span'][0]:l['span'][1]].decode()
+                        if t.startswith('"') and t not in lits:
+                            lits.append(t)
+                if lits:
+                    ins(lp['body'][0] + 1, ' proof { ' + ' '.join('reveal_strlit(%s);' % t for t in lits) + ' }', {'rule': 'R8'})
+                    self.g.count('R8')
             if spec is None:
                 continue
             t = ''
